@@ -59,6 +59,16 @@ func runSchemaIdx(c *Ctx) {
 		c.Undecided("newSchema index rows", fn.Pos(), "newSchema no longer attaches CREATE INDEX rows through addCreateIndex")
 		return
 	}
+	// … and through nothing else: an index put on the list by name alone (its definition not understood) has no
+	// columns, and everything that reads an index entry — where the key columns of a WITHOUT ROWID table sit in it,
+	// which collation orders it — takes the missing definition for an empty one
+	direct := ""
+	for _, in := range instrs(fn) {
+		if st, ok := in.(*ssa.Store); ok && fieldName(st.Addr) == "Indexes" {
+			direct = p.Pos(st.Pos())
+		}
+	}
+	c.Check(direct == "", "newSchema: indexes only with their definition", fn.Pos(), "%s", map[bool]string{true: "newSchema puts an index on the schema's list only through addCreateIndex, i.e. with the columns of its parsed definition", false: "newSchema stores into Schema.Indexes itself at " + direct + ": an index is listed without the columns of its definition (C10 allows leaving out an index that cannot be interpreted, not listing it with an empty definition)"}[direct == ""])
 	t := &Termer{P: p}
 	paths, ok := EnumLits(fn.Blocks[0], 0, TabOpts{Termer: t, EventOf: callEvents(p), Limit: 300000, StopGoesOn: inCycle(site.Block()),
 		Stop: func(in ssa.Instruction, ps *pathState) bool { return in == ssa.Instruction(site) }})
@@ -668,13 +678,27 @@ func dedupFunction(p *Program, f *ssa.Function) string {
 		}
 	}
 	also := map[*ssa.Function]bool{}
-	for _, cs := range callsIn(f) {
-		if cal := cs.Common().StaticCallee(); cal != nil && p.InModule(cal) && sameKeyComparator(p, cal) != "" {
-			also[cal] = true // a search helper (walked in place); the comparator itself stays a call
+	keep := map[*ssa.Function]bool{}
+	var mark func(g *ssa.Function, depth int)
+	mark = func(g *ssa.Function, depth int) {
+		for _, cs := range callsIn(g) {
+			cal := cs.Common().StaticCallee()
+			if cal == nil || !p.InModule(cal) {
+				continue
+			}
+			if sameKeyComparator(p, cal) != "" && sameColumnComparator(p, cal) != "" {
+				also[cal] = true // a search helper (walked in place); the comparator itself stays a call
+				if depth < 2 {
+					mark(cal, depth+1)
+				}
+			} else {
+				keep[cal] = true
+			}
 		}
 	}
+	mark(f, 0)
 	t := &Termer{P: p}
-	paths, ok := EnumLits(h, 0, TabOpts{Termer: t, EventOf: callEvents(p), InlineAlso: also, Limit: 100000,
+	paths, ok := EnumLits(h, 0, TabOpts{Termer: t, EventOf: callEvents(p), InlineAlso: also, KeepCall: keep, Limit: 100000,
 		Stop: func(in ssa.Instruction, ps *pathState) bool { return in == h.Instrs[0] && len(ps.Path) > 1 }})
 	if !ok {
 		return "— too many paths"
@@ -705,7 +729,7 @@ func dedupFunction(p *Program, f *ssa.Function) string {
 			}
 			v, isVal := e.Instr.(ssa.Value)
 			call, isCall := e.Instr.(*ssa.Call)
-			if !isVal || !isCall || call.Call.StaticCallee() == nil || !p.InModule(call.Call.StaticCallee()) || sameKeyComparator(p, call.Call.StaticCallee()) != "" {
+			if !isVal || !isCall || call.Call.StaticCallee() == nil || !p.InModule(call.Call.StaticCallee()) || (sameKeyComparator(p, call.Call.StaticCallee()) != "" && sameColumnComparator(p, call.Call.StaticCallee()) != "") {
 				continue
 			}
 			nCmp++
